@@ -424,6 +424,11 @@ def chunks (size : Nat) : Nat → List Tok → List (List Tok)
   | 0, _ => []
   | c + 1, xs => xs.take size :: chunks size c (xs.drop size)
 
+/-- coordinates of `repeat`: the input is a `(k, depth, n)` array (flat, row-major); model `m` of the result is
+the concatenation over the repeats `j` of `coord[j, m]` (`np.swapaxes(coord, 0, 1).reshape(depth, k*n)`). -/
+def repCoord (n k depth : Nat) (toks : List Tok) : List (List Tok) :=
+  (List.range depth).map (fun m => (List.range (n * k)).map (fun t => toks.getD (((t / n) * depth + m) * n + t % n) 0))
+
 def bondsCountBad (bonds : Option Bonds) (n : Nat) : Bool :=
   match bonds with | some b => b.count != n | none => false
 
@@ -435,7 +440,7 @@ def repeatArr (a : Arr) (k : Nat) (toks : List Tok) : Except Err Arr :=
     if bondsCountBad bonds (a.n * k) then .error .valueError
     else .ok { a with n := a.n * k
                       annot := a.annot.map (fun p => (p.1, tile k p.2))
-                      coord := chunks (a.n * k) a.coord.length toks
+                      coord := repCoord a.n k a.coord.length toks
                       bonds := bonds }
 
 def boxDepthBad (box : Option (List Tok)) (d : Nat) : Bool :=
